@@ -12,6 +12,7 @@ import (
 	gocontext "context"
 	"encoding/json"
 	"errors"
+	"fmt"
 	"io"
 	"math/rand"
 	"net/http"
@@ -52,6 +53,7 @@ type cVar struct {
 	Meth  string `json:"meth"` // request method (GET / HEAD / POST): a HEAD response forwards no body but is "written" all the same
 	RH    bool   `json:"rh"`   // a custom ReturnHandler is mapped in the injector: it replaces the default table
 	Der   bool   `json:"der"`  // "C" installs a derived request context first and cancels that one
+	WK    int    `json:"wk"`   // how "W" touches the response: 0 always WriteHeader(200+h); else per handler WriteHeader / Write(bytes) / Write(nil) / Flush()
 	DL    bool   `json:"dl"`   // ... and that derived context ends by an expired deadline (the timeout-middleware case) rather than by cancel()
 }
 
@@ -148,8 +150,26 @@ func (x *chainExec) body(h int, c flamego.Context) {
 	for _, op := range p.Ops {
 		switch op {
 		case "W":
-			c.ResponseWriter().WriteHeader(200 + h)
-			x.ev(map[string]interface{}{"e": "write", "h": h, "code": 200 + h})
+			// the ways a handler can start the response: explicit status, body bytes, an empty body write, a flush
+			wk := 0
+			if x.v.WK > 0 {
+				wk = (x.v.WK + h) % 4
+			}
+			switch wk {
+			case 0:
+				c.ResponseWriter().WriteHeader(200 + h)
+				x.ev(map[string]interface{}{"e": "write", "h": h, "code": 200 + h, "b": ""})
+			case 1:
+				b := fmt.Sprintf("w%d", h)
+				_, _ = c.ResponseWriter().Write([]byte(b))
+				x.ev(map[string]interface{}{"e": "write", "h": h, "code": 200, "b": b})
+			case 2:
+				_, _ = c.ResponseWriter().Write(nil)
+				x.ev(map[string]interface{}{"e": "write", "h": h, "code": 200, "b": ""})
+			default:
+				c.ResponseWriter().Flush()
+				x.ev(map[string]interface{}{"e": "write", "h": h, "code": 200, "b": ""})
+			}
 		case "N":
 			x.ev(map[string]interface{}{"e": "next", "h": h})
 			c.Next()
@@ -396,6 +416,7 @@ func chainVarFor(c *chainCase, idx int) cVar {
 		PK: []string{"string", "error", "runtime", "struct", "abort"}[rng.Intn(5)], Fast: rng.Intn(3), Reqs: 1 + rng.Intn(2)}
 	v.Der = rng.Intn(2) == 0
 	v.DL = v.Der && rng.Intn(2) == 0
+	v.WK = rng.Intn(5)
 	v.RH = rng.Intn(5) == 0
 	v.Meth = []string{"GET", "GET", "HEAD", "POST"}[rng.Intn(4)]
 	v.HS = rng.Intn(3) == 0
